@@ -86,4 +86,60 @@ theorem argsort_sorted (l : Vec) (h : l.Pairwise (· < ·)) :
   · rw [List.map_fst_zip (by simp)]
     exact h.imp le_of_lt
 
+/-! ### the frequency interpolation on lifted rows (task: bridges of the frequency stage) -/
+
+theorem insertK_map_snd {α β : Type} (g : α → β) (p : ℚ × α) : ∀ t : List (ℚ × α),
+    insertK (p.1, g p.2) (t.map fun q => (q.1, g q.2)) = (insertK p t).map fun q => (q.1, g q.2) := by
+  intro t
+  induction t with
+  | nil => rfl
+  | cons q t ih =>
+    simp only [List.map_cons, insertK_cons]
+    split
+    · simp
+    · simp [ih]
+
+theorem sortK_map_snd {α β : Type} (g : α → β) (l : List (ℚ × α)) :
+    sortK (l.map fun q => (q.1, g q.2)) = (sortK l).map fun q => (q.1, g q.2) := by
+  induction l with
+  | nil => rfl
+  | cons p t ih => simp only [List.map_cons, sortK_cons, ih, insertK_map_snd]
+
+theorem getD_map_nil {α β : Type} (g : List α → List β) (hg : g [] = []) (l : List (List α)) (i : Nat) :
+    (l.map g).getD i [] = g (l.getD i []) := by
+  simp only [List.getD_eq_getElem?_getD, List.getElem?_map]
+  cases l[i]? <;> simp [hg]
+
+/-- the reading of `interp(freq=…, assume_sorted=False, fill_value=0)` on rows lifted by `M`, against the model's
+    node search and `applyLocV`, for any lifting `M` / mask `K` compatible with NaN propagation -/
+theorem interpFreq_lift (M : Vec → ORow) (K : Loc → Vec → ORow) (nd : Nat) (F d : Vec) (E : Mat) (tf : Vec)
+    (hM0 : M [] = [])
+    (hseg : ∀ i t a b, List.zipWith (fun x y => lerpO x y t) (M a) (M b) = K (.seg i t) (List.zipWith (fun x y => lerpT x y t) a b))
+    (hnan : List.replicate nd none = K .nan (List.replicate nd 0))
+    (hout : List.replicate nd (some 0) = K .out (List.replicate nd 0))
+    (hnd : ((E.map M).headD []).length = nd) :
+    interpFreq { freq := F, dir := d, e := E.map M } tf 0 =
+      { freq := tf, dir := d,
+        e := tf.map fun x => K (locate ((sortK (F.zip E)).map (·.1)) x)
+              (applyLocV nd ((sortK (F.zip E)).map (·.2)) (locate ((sortK (F.zip E)).map (·.1)) x)) } := by
+  simp only [interpFreq, hnd]
+  congr 1
+  apply List.map_congr_left
+  intro x _
+  have hz : F.zip (E.map M) = (F.zip E).map fun q => (q.1, M q.2) := by
+    rw [List.zip_map_right]; rfl
+  rw [hz, sortK_map_snd]
+  simp only [List.map_map, Function.comp_def]
+  have h2 : (sortK (F.zip E)).map (fun q => M q.2) = ((sortK (F.zip E)).map (·.2)).map M := by
+    simp [List.map_map, Function.comp_def]
+  rw [h2]
+  simp only [lin1V]
+  cases h : locate ((sortK (F.zip E)).map (·.1)) x with
+  | out => simp only [applyLocV]; exact hout
+  | nan => simp only [applyLocV]; exact hnan
+  | seg i t => simp only [applyLocV, getD_map_nil M hM0]; exact hseg i t _ _
+
+example : interpFreq_lift (fun _ => []) (fun _ _ => []) 0 [] [] [] [1] rfl (by simp) rfl rfl rfl =
+    interpFreq_lift (fun _ => []) (fun _ _ => []) 0 [] [] [] [1] rfl (by simp) rfl rfl rfl := rfl
+
 end WS.Rg
